@@ -43,6 +43,8 @@ def rest_state(entries: list[dict]) -> tuple | None:
     if len(entries) != 1:
         return None
     e = entries[0]
+    if e["params"] is None:
+        return None
     if e["place"] in ("waiting", "delayed"):
         return ("queued", e["params"]["tried"])
     if e["place"] == "dead":
